@@ -93,6 +93,35 @@ def handlersCompleteUnderLock : Bool :=
   before (fn "onClose") ("write", "done=true", "syncMutex") ("notify_one", "op.cv", "") &&
   before (fn "onConnect") ("read", "abandoned", "syncMutex") ("erase", "pendingConnects", "syncMutex")
 
+/-- "in time" tie (the durations themselves are scheduler choices in the model): `connectSync` waits on its own lock for exactly the
+caller's `timeout` with the predicate `done || shuttingDown`; the cancellable wrapper polls in sub-intervals of 100 ms, its
+deadline is `now + timeout`, every sub-attempt gets `min(remaining, subInterval)` with `remaining = deadline - now`, and the loop
+runs while `now < deadline` -/
+def connectTimingArgs : Bool :=
+  let a := fn "connectSync.args"
+  let w := fn "connectSyncCancellable.args"
+  a.contains ("expr", "wait_for.lock", "lk") && a.contains ("expr", "wait_for.timeout", "timeout") &&
+  a.contains ("expr", "wait_for.pred", "[&op,this]{returnop->done||_impl->shuttingDown;}") &&
+  w.contains ("expr", "subInterval", "std::chrono::milliseconds{100}") &&
+  w.contains ("expr", "deadline", "std::chrono::steady_clock::now()+timeout") &&
+  w.contains ("expr", "remaining0", "timeout") &&
+  count w (fun e => e.2.1 == "remaining") == 1 &&
+  w.contains ("expr", "remaining", "std::chrono::duration_cast<std::chrono::milliseconds>(deadline-std::chrono::steady_clock::now())") &&
+  count w (fun e => e.2.1 == "subTimeout") == 2 &&
+  count w (fun e => e == ("expr", "subTimeout", "std::min(remaining,subInterval)")) == 2 &&
+  count w (fun e => e.2.1 == "connectSync.args") == 2 &&
+  count w (fun e => e == ("expr", "connectSync.args", "host,port,tls,subTimeout")) == 2 &&
+  w.contains ("expr", "while", "std::chrono::steady_clock::now()<deadline")
+/-- the requested host, port and TLS mode reach `engine->connect` unchanged; an engine error is returned as is; the id handed out is
+the engine's; the timeout exit closes exactly that id; the success return is the handler's result -/
+def connectPassesArgs : Bool :=
+  let a := fn "connectSync.args"
+  count a (fun e => e.2.1 == "engine.connect.args") == 2 &&
+  count a (fun e => e == ("expr", "engine.connect.args", "host,port,tls")) == 2 &&
+  count a (fun e => e.2.1 == "engine.close.args") == 1 && a.contains ("expr", "engine.close.args", "sid") &&
+  a.contains ("expr", "connect.errbranch", "returnresult;") && a.contains ("expr", "sid", "result.value()") &&
+  a.contains ("expr", "return.done", "std::move(op->result)") && count a (fun e => e.2.1 == "return.ok") == 0
+
 /-! ### C05: fence, counters, guards -/
 def fenceUnderLockAndNotifies : Bool :=
   followedBy (fn "setTeardownFence") ("write", "shuttingDown=true", "syncMutex") ("notify_all", "pendingConnects[*].cv", "syncMutex") &&
